@@ -313,12 +313,17 @@ impl ParallelCacheState {
             // If it is marked as selfdestructed inside revm
             // we need to changed state to destroyed.
             if is_destructed {
+                // Mark the storage as known (status change) before dropping the cached slots: a
+                // concurrent reader re-checks the status under the storage entry's lock, so a
+                // value fetched from the database before this reset can no longer be inserted
+                // after it (see `db_storage`).
+                vpoint!(CACHE, "CA_Account");
+                vemit!(CACHE, "CA_Account", "addr" => format!("{address:x}"), "op" => "selfdestruct");
+                let transition = self.get_account_mut(address).selfdestruct();
                 vpoint!(CACHE, "CA_StorageRemove");
                 self.storage.remove(&address);
                 vemit!(CACHE, "CA_StorageRemove", "addr" => format!("{address:x}"), "why" => "destroy");
-                vpoint!(CACHE, "CA_Account");
-                vemit!(CACHE, "CA_Account", "addr" => format!("{address:x}"), "op" => "selfdestruct");
-                return self.get_account_mut(address).selfdestruct();
+                return transition;
             }
 
             // Note: it can happen that created contract get selfdestructed in same block
@@ -331,13 +336,13 @@ impl ParallelCacheState {
             // is not possible because CREATE2 is introduced later.
             if is_created {
                 let info = account.info;
-                vpoint!(CACHE, "CA_StorageRemove");
-                self.storage.remove(&address);
-                vemit!(CACHE, "CA_StorageRemove", "addr" => format!("{address:x}"), "why" => "create");
                 vpoint!(CACHE, "CA_Account");
                 vemit!(CACHE, "CA_Account", "addr" => format!("{address:x}"), "op" => "created");
                 let (transition, changed_slots) =
                     self.get_account_mut(address).newly_created(info.clone(), changed_storage);
+                vpoint!(CACHE, "CA_StorageRemove");
+                self.storage.remove(&address);
+                vemit!(CACHE, "CA_StorageRemove", "addr" => format!("{address:x}"), "why" => "create");
                 self.contracts.entry(info.code_hash).or_insert_with(|| info.code.clone().unwrap());
                 (Some(transition), Some(changed_slots))
             }
@@ -349,13 +354,14 @@ impl ParallelCacheState {
             // pre-existing empty accounts are unmarked as touched. Therefore, an account that
             // reaches the commit layer as touched, empty, and not created must be cleared.
             else if is_empty {
-                vpoint!(CACHE, "CA_StorageRemove");
-                self.storage.remove(&address);
-                vemit!(CACHE, "CA_StorageRemove", "addr" => format!("{address:x}"), "why" => "empty");
                 drop(changed_storage);
                 vpoint!(CACHE, "CA_Account");
                 vemit!(CACHE, "CA_Account", "addr" => format!("{address:x}"), "op" => "touch_empty");
-                (self.get_account_mut(address).touch_empty_eip161(), None)
+                let transition = self.get_account_mut(address).touch_empty_eip161();
+                vpoint!(CACHE, "CA_StorageRemove");
+                self.storage.remove(&address);
+                vemit!(CACHE, "CA_StorageRemove", "addr" => format!("{address:x}"), "why" => "empty");
+                (transition, None)
             } else {
                 vpoint!(CACHE, "CA_Account");
                 vemit!(CACHE, "CA_Account", "addr" => format!("{address:x}"), "op" => "change");
@@ -616,13 +622,37 @@ impl<'a, DB: DatabaseRef> ParallelStateView<'a, DB> {
         vpoint!(CACHE, "CS_Insert");
         #[cfg(grevm_verif)]
         let fetched_value = value;
+        // A value fetched from the database is only valid while the account's storage is still
+        // unknown. Commit marks it known *before* it drops the cached slots, and both happen-before
+        // / after this check because the storage entry's lock is held here: a pre-reset database
+        // value is never inserted after the reset.
+        let reset_meanwhile = || {
+            !is_storage_known &&
+                self.cache.accounts.get(&address).is_some_and(|account| {
+                    account.status.is_storage_known() || account.account.is_none()
+                })
+        };
         let value = if let Some(slots) = self.cache.storage.get(&address) {
-            *slots.entry(index).or_insert(value).value()
+            if reset_meanwhile() {
+                slots.get(&index).map_or(U256::ZERO, |value| *value.value())
+            } else {
+                *slots.entry(index).or_insert(value).value()
+            }
         } else {
             match self.cache.storage.entry(address) {
-                Entry::Occupied(entry) => *entry.get().entry(index).or_insert(value).value(),
+                Entry::Occupied(entry) => {
+                    if reset_meanwhile() {
+                        entry.get().get(&index).map_or(U256::ZERO, |value| *value.value())
+                    } else {
+                        *entry.get().entry(index).or_insert(value).value()
+                    }
+                }
                 Entry::Vacant(entry) => {
-                    *entry.insert(Default::default()).entry(index).or_insert(value).value()
+                    if reset_meanwhile() {
+                        U256::ZERO
+                    } else {
+                        *entry.insert(Default::default()).entry(index).or_insert(value).value()
+                    }
                 }
             }
         };
